@@ -40,7 +40,7 @@ Op grammar (one label per record; observation after `=>`):
   xend c<i> L<n> park / unsubscribe c<i> u<j> park => ok unsub-held    (the stream has ended on the server; its clean-up is parked in the application's UnsubscribeHandler, before its first critical section, until `unsubdone`)
   unsubdone c<i> <r<j>|L<n>>                       => ok          (that UnsubscribeHandler call returns; the clean-up runs)
   ackdone c<i> <m|r<j>|L<n>>                       => ok          (the handler held right after its ack write goes on)
-  close c<i>                                       => ok
+  close c<i> [drop]                                => ok          (drop: the connection is cut under the client — no notifications/cancelled for its open listens, no orderly ClientSession.Close: the server reads EOF, the connection cancels the parked handlers, their clean-up runs, then Server.disconnect; the same label `close` of the model)
   rupdated u<j> [names u<k>]                       => sent@<t> …   (names: the notification the subscribers of u<j> get names u<k>, whose content changed)
   list c<i> <tools|prompts|resources|templates|read:j> <n|post|pre>  => ret v<N> hit|miss | held v<N> | pre
   send c<i> <key> => held v<N> ;  fill c<i> <key> => ret v<N> miss
@@ -136,6 +136,7 @@ def parseOp (toks : List String) : Op :=
    | ["ackdone", c, which] => do some (Op.ackdone (← parseSlot c) (← parseName which))
    | "unsubscribe" :: c :: u :: rest => do some (Op.unsubscribe (← parseSlot c) (← parseUri u) (← holdTok rest))
    | ["close", c] => (parseSlot c).map Op.close
+   | ["close", c, "drop"] => (parseSlot c).map Op.close
    | ["rupdated", u] => (parseUri u).map (fun u => Op.rupdated u u)
    | ["rupdated", u, "names", v] => do some (Op.rupdated (← parseUri u) (← parseUri v))
    | ["list", c, key, mode] => do some (Op.list (← parseSlot c) (← parseKey key) (← parseMode mode))
